@@ -14,11 +14,13 @@ package pongo2
 //@ type tagForLoopInformation region perexec
 //@ type tagCycleValue region perexec
 //@ type tagBlockInformation region perexec
+//@ type tagIfchangedState region perexec
 //@ type Error region perexec
 //@ type templateWriter region perexec
 
 //@ type ExecutionContext
 //@   invariant perexec(self.Private)
+//@   invariant perexec(self.nodeState)
 
 //@ func (Context).Update
 //@   requires @owned perexec(c)
@@ -260,3 +262,94 @@ package pongo2
 //@   ensures r0 != nil && fresh(r0)
 //@ extern bytes.NewBufferString(s) (r0)
 //@   ensures r0 != nil && fresh(r0)
+
+// ---- reflect (assumed library contracts; preconditions are the documented panic conditions) ----
+// Kinds: Invalid=0 Bool=1 Int=2..Int64=6 Uint=7..Uintptr=12 Float32=13 Float64=14 Array=17 Chan=18 Func=19 Interface=20 Map=21 Ptr=22 Slice=23 String=24 Struct=25
+//@ extern (reflect.Value).Kind(v) (r0)
+//@   pure as RVKind
+//@   ensures 0 <= r0 && r0 <= 26
+//@ extern (reflect.Value).IsValid(v) (r0)
+//@   pure as RVValid
+//@   ensures r0 == (RVKind(v) != 0)
+//@ extern (reflect.Value).CanInterface(v) (r0)
+//@   pure as RVCanInterface
+//@ extern (reflect.Value).CanAddr(v) (r0)
+//@   pure as RVCanAddr
+//@ extern (reflect.Value).Elem(v) (r0)
+//@   pure as RVElem
+//@   requires {C01,C08} @kind RVKind(v) == 20 || RVKind(v) == 22
+//@ extern (reflect.Value).Len(v) (r0)
+//@   pure as RVLen
+//@   requires {C01,C08} @kind RVKind(v) == 17 || RVKind(v) == 18 || RVKind(v) == 21 || RVKind(v) == 23 || RVKind(v) == 24
+//@   ensures 0 <= r0 && r0 <= 4611686018427387903
+//@ extern (reflect.Value).String(v) (r0)
+//@   pure as RVString
+//@ extern (reflect.Value).Int(v) (r0)
+//@   pure as RVInt
+//@   requires {C01,C08} @kind 2 <= RVKind(v) && RVKind(v) <= 6
+//@ extern (reflect.Value).Uint(v) (r0)
+//@   pure as RVUint
+//@   requires {C01,C08} @kind 7 <= RVKind(v) && RVKind(v) <= 12
+//@ extern (reflect.Value).Float(v) (r0)
+//@   pure as RVFloat
+//@   requires {C01,C08} @kind RVKind(v) == 13 || RVKind(v) == 14
+//@ extern (reflect.Value).Bool(v) (r0)
+//@   pure as RVBool
+//@   requires {C01,C08} @kind RVKind(v) == 1
+//@ extern (reflect.Value).Index(v, i) (r0)
+//@   pure as RVIndex
+//@   requires {C01,C08} @kind RVKind(v) == 17 || RVKind(v) == 23 || RVKind(v) == 24
+//@   requires {C01,C08} @range 0 <= i && i < RVLen(v)
+//@   ensures RVKind(r0) != 0
+//@ extern (reflect.Value).Type(v) (r0)
+//@   pure as RVType
+//@   requires {C01,C08} @valid RVKind(v) != 0
+//@   ensures r0 != nil
+//@ extern reflect.ValueOf(i) (r0)
+//@   pure as RVOf
+//@   ensures (i == nil) == (RVKind(r0) == 0)
+//@ extern (reflect.Value).MapKeys(v) (r0)
+//@   requires {C01,C08} @kind RVKind(v) == 21
+//@   ensures fresh(r0)
+//@ extern (reflect.Value).FieldByName(v, name) (r0)
+//@   pure as RVField
+//@   requires {C01,C08} @kind RVKind(v) == 25
+//@ extern (reflect.Value).MethodByName(v, name) (r0)
+//@   pure as RVMethod
+//@   requires {C01,C08} @valid RVKind(v) != 0
+//@ extern (reflect.Value).Slice(v, i, j) (r0)
+//@   requires {C01,C08,C18} @kind (RVKind(v) == 17 && RVCanAddr(v)) || RVKind(v) == 23 || RVKind(v) == 24
+//@   requires {C01,C08,C18} @range 0 <= i && i <= j && j <= RVLen(v)
+
+// ---- strings / strconv facts used by the safety sweep (assumed) ----
+//@ extern strings.Split(s, sep) (r0)
+//@   ensures len(r0) >= 1 && fresh(r0)
+//@ extern strings.Fields(s) (r0)
+//@   ensures fresh(r0)
+
+// ---- Value: an immutable wrapper; its accessors are functions of the wrapped value ----
+//@ func (*Value).String
+//@   pure as VString
+//@ func (*Value).Integer
+//@   pure as VInteger
+//@ func (*Value).Float
+//@   pure as VFloat
+//@ func (*Value).Len
+//@   pure as VLen
+//@   ensures r0 >= 0
+//@ func (*Value).IsTrue
+//@   pure as VIsTrue
+//@ func (*Value).CanSlice
+//@   pure as VCanSlice
+//@ func (*Value).IsString
+//@   pure as VIsString
+//@ func (*Value).IsInteger
+//@   pure as VIsInteger
+//@ func (*Value).IsFloat
+//@   pure as VIsFloat
+//@ func (*Value).IsNumber
+//@   pure as VIsNumber
+//@ func (*Value).IsBool
+//@   pure as VIsBool
+//@ func (*Value).IsNil
+//@   pure as VIsNil
